@@ -81,7 +81,7 @@ impl Sk {
     }
 }
 
-const LEAVES: [Sk; 4] = [Sk::M(1), Sk::Fd(1), Sk::Fd(2), Sk::D(1)];
+const LEAVES: [Sk; 5] = [Sk::M(1), Sk::Fd(1), Sk::Fd(2), Sk::D(1), Sk::Fd(0)];
 
 /// All trees with exactly `n` nodes (leaf kinds from LEAVES, FnCall may be empty).
 fn trees_exact(n: usize, memo: &mut Vec<Option<Vec<Sk>>>) -> Vec<Sk> {
@@ -614,7 +614,7 @@ pub fn meta(args: &Args) -> Value {
     let (n, en, r, sz) = plan(args);
     json!({
         "level": "exploration",
-        "rule": format!("(a) exhaustive: every ordered pair of root layouts with <= {n} nodes over leaf kinds Mem(1), Feed(1), Feed(2), Delay(1) and (possibly empty) FnCall — one case = one old layout against all new layouts, non-trivial if at least one pair with different layouts yielded patches; (b) exhaustive edit scripts (every 0/1/2 disjoint subtree deletions, alone and combined with every single insertion of 5 small fresh-kind subtrees at every slot) over all old layouts with <= {en} nodes — one case = one old layout with all its scripts, non-trivial if some script changed the layout and kept a leaf; (c) {r} random trees up to {sz} nodes with random delete/insert scripts — non-trivial if layouts differ and at least one leaf survives. Distinctness = hash of the case (layout index or layouts + script)."),
+        "rule": format!("(a) exhaustive: every ordered pair of root layouts with <= {n} nodes over leaf kinds Mem(1), Feed(1), Feed(2), Delay(1), Feed(0) (the cell of a unit-valued self) and (possibly empty) FnCall — one case = one old layout against all new layouts, non-trivial if at least one pair with different layouts yielded patches; (b) exhaustive edit scripts (every 0/1/2 disjoint subtree deletions, alone and combined with every single insertion of 5 small fresh-kind subtrees at every slot) over all old layouts with <= {en} nodes — one case = one old layout with all its scripts, non-trivial if some script changed the layout and kept a leaf; (c) {r} random trees up to {sz} nodes with random delete/insert scripts — non-trivial if layouts differ and at least one leaf survives. Distinctness = hash of the case (layout index or layouts + script)."),
         "assumptions": ["u64 word sizes stand in for mir::StateType (the diff only looks at word_size)", "sibling order is checked as global monotonicity of (src,dst) over the flat layout", "survival is only asserted for scripts whose insertions use leaf kinds absent from the old layout, so that the kept part of the new layout is unambiguously a pure removal"],
         "floor": {"quick": 200, "thorough": 2000},
         "exhaustive": true,
